@@ -373,7 +373,9 @@ func validateSubpictureParts(parts subpictureParts, format *DecimalFormat) error
 		}
 	}
 
-	exponents := strings.Count(parts.Picture, string(format.ExponentSeparator))
+	// An exponent separator before the first or after the last
+	// active character belongs to the prefix or the suffix.
+	exponents := strings.Count(parts.Active, string(format.ExponentSeparator))
 	if exponents > 1 {
 		return fmt.Errorf("a subpicture cannot contain more than one exponent separator")
 	}
